@@ -108,3 +108,39 @@ Example C01_text_level_sample :
   inline_sep (fun _ _ => []) SQLite sc = true.
 Proof. repeat apply conj; vm_compute; reflexivity. Qed.
 Close Scope string_scope.
+
+(* The premise holds for EVERY rendered expression.  sc_ok (Spec/ScriptSafe.v) is a local form of the premise -
+   every writer token lexes alone and may be followed by the first character of the next non-empty one - which
+   composes along the structure of the renderer; it implies params_sep (C01_local_safety_gives_the_premise).
+   For every expression tree without raw SQL (expr_plain: no Custom / CustomWith / custom keyword / custom function
+   or operator, constants written as lexable literals), every backend, both rendering paths, every table whose
+   spellings lex (spellings_lex), and sub-query renderings that are themselves locally safe: the script of the
+   expression is locally safe, hence separable, hence C01_engine_reads_the_placeholders applies to its text
+   (Proofs/ExprSafeProofs.v: induction over the expression renderer, each fixed text of the renderer checked for the
+   three lexers by computation).  C01_generated_tables_spell_lexably: the spellings executed from the code on this
+   run satisfy spellings_lex (finite check).  Not proved: the same for whole statements (rquery). *)
+Require Import SQV.Model.ExprTablesInst SQV.Spec.ScriptSafe SQV.Proofs.ScriptSafeProofs SQV.Proofs.ExprSafeProofs
+  SQV.Proofs.TablesLexProofs.
+Theorem C01_local_safety_gives_the_premise :
+  forall (ftext : bool -> N -> str) b sc, sc_ok ftext b sc = true -> params_sep ftext b sc = true.
+Proof. exact sc_ok_params_sep. Qed.
+Print Assumptions C01_local_safety_gives_the_premise.
+
+Theorem C01_rendered_expression_is_separable :
+  forall (ftext : bool -> N -> str) Q (rq : Q -> script) is_alpha b T (e : expr Q) common,
+  spellings_lex ftext b T -> (forall q, sc_ok ftext b (rq q) = true) -> expr_plain ftext Q b e = true ->
+  sc_ok ftext b (rexpr Q rq is_alpha b T common e) = true /\
+  params_sep ftext b (rexpr Q rq is_alpha b T common e) = true.
+Proof. exact rendered_expression_is_separable. Qed.
+Print Assumptions C01_rendered_expression_is_separable.
+
+Theorem C01_generated_tables_spell_lexably :
+  forall (ftext : bool -> N -> str) more b, spellings_lex ftext b (tables_of more b).
+Proof. exact generated_tables_spell_lexably. Qed.
+Print Assumptions C01_generated_tables_spell_lexably.
+
+(* The n-th hole is read as placeholder number n: the decimal text of a number reads back as that number *)
+Theorem C01_hole_is_read_as_its_number :
+  forall b n, eng_tokens b (hole_text b n) = Some [TkParam (hole_no b n)].
+Proof. exact hole_lexes. Qed.
+Print Assumptions C01_hole_is_read_as_its_number.
